@@ -114,6 +114,9 @@ pub open spec fn delivery_matches(msg: Option<Msg>, e: Effect) -> bool {
 pub open spec fn deliveries_match(a: Seq<Effect>, b: Seq<Effect>, msg: Option<Msg>) -> bool {
     forall|i: int| a.len() <= i < b.len() ==> delivery_matches(msg, #[trigger] b[i])
 }
+/// the handshake message as far as the session's guards can see it: a payload or none (the state machines of unit auth look inside)
+#[verifier::external_body] pub struct AuthPayload { _p: u8 }
+pub struct AuthenticationMessage { pub msg: Option<AuthPayload> }
 pub open spec fn authed(a: AuthenticationState) -> bool {
     match a {
         AuthenticationState::AsClient(c) => c is Ok,
